@@ -396,7 +396,7 @@ def c01_4(ctx):
     ok = False
     for i in ifs:
         body = [unparse(s) for s in i.body]
-        if 'self._bytes.append(0)' in body and 'self._cur_bit_idx = 7' in body and 'self._cur_byte_idx += 1' in body:
+        if 'self._bytes.append(0)' in body and 'self._cur_bit_idx = 7' in body:   # (the byte index is paired with the append by C01.9)
             from engine.lin import to_cnf
             r2 = resolver(ctx, tgt, inline=False)
             cl = to_cnf(i.test, True, r2)
@@ -594,6 +594,79 @@ def c01_8(ctx):
         ctx.err('endian-default:sites', '-', 'at least 15 hand-down sites', f'{n}')
 
 
+# ------------------------------------------------------------------------------------------------- C01.9
+
+def c01_9(ctx):
+    """The packer's cursor, by interval / typestate abstract interpretation of PackedBits.append_bits (engine/interval.py):
+    with the class invariant  cursor in [-1, 7],  byte index = len(buffer) - 1,  cursor + bits stored in the current byte = 7
+    assumed on entry (and established by __init__), every store into the buffer ORs one 0/1 value shifted by the cursor in
+    [0, 7] into the current byte at a moment the invariant holds (no gap, no collision, never an overwrite), a new byte is
+    started only when the current one is full or the field is byte aligned, new bytes are zero, and every exit restores the invariant."""
+    from engine.interval import CursorInterp, State, within, fmt
+    ctx.rule('C01.9', 'packer cursor discipline: bits are ORed one at a time at the cursor inside the current byte; no gap, no collision, no overwrite', 6)
+    tgt = ctx.repo.func(PB + '.append_bits')
+    init = ctx.repo.func(PB + '.__init__')
+    BUF, CUR, IDX = 'self._bytes', 'self._cur_bit_idx', 'self._cur_byte_idx'
+    # __init__ establishes the invariant
+    vals = {}
+    for s in ast.walk(init.node):
+        if isinstance(s, ast.Assign) and len(s.targets) == 1 and unparse(s.targets[0]) in (BUF, CUR, IDX):
+            vals[unparse(s.targets[0])] = unparse(s.value)
+    ctx.check(vals.get(CUR) == '7' and vals.get(IDX) == '0' and vals.get(BUF) in ('bytearray(1)', 'bytearray([0])', "bytearray(b'\\x00')"),
+              'cursor:initial', init.site(), 'a new packer holds one zero byte, byte index 0, cursor at bit 7', str(vals))
+    flags = [a.arg for a in tgt.call_params if a.arg in ('byte_aligned',)]
+    it = CursorInterp(BUF, CUR, IDX, flag_names=flags)
+    entry = State({CUR: (-1, 7), IDX: (0, None), 'T': (7, 7), 'D': (-1, -1)})
+    it.run(tgt.node, entry)
+    for n in it.unknown:
+        ctx.err('cursor:unsupported', tgt.site(n), 'statement understood by the cursor interpreter', unparse(n)[:120])
+    ctx.check(not it.overwrites, 'cursor:no-overwrite', tgt.site(it.overwrites[0]) if it.overwrites else tgt.site(),
+              'the buffer is only extended by append and modified by |= (bits of earlier fields are never cleared or replaced)',
+              '; '.join(unparse(n)[:80] for n in it.overwrites))
+    if not it.stores:
+        ctx.refute('cursor:store', tgt.site(), 'bits are ORed into the buffer', 'no |= store into the buffer found')
+    for (n, idx, kind_ok, shift, T, D, uses_cursor) in it.stores:
+        ctx.check(idx == IDX and D == (-1, -1), 'cursor:store-in-current-byte', tgt.site(n),
+                  'a bit is stored into the last byte of the buffer (the byte index is advanced exactly with every append)',
+                  f'index {idx}; byte index - len(buffer) in {fmt(D)}')
+        ctx.check(kind_ok and uses_cursor and within(shift, 0, 7), 'cursor:one-bit-inside-the-byte', tgt.site(n),
+                  'the stored value is a single 0/1 bit shifted by the cursor, and the cursor is in [0, 7] there',
+                  f'{unparse(n.value)[:80]}: value is {"0/1" if kind_ok else "not provably 0/1"}, shift in {fmt(shift)}')
+        ctx.check(T == (7, 7), 'cursor:dense', tgt.site(n),
+                  'at every store, cursor + bits already stored in the current byte = 7 (no bit position skipped, none written twice)',
+                  f'cursor + stored bits in {fmt(T)}')
+    if not it.refills:
+        ctx.refute('cursor:refill', tgt.site(), 'a new byte is appended when the current one is full', 'no append found')
+    for (c, at, under_flag, arg) in it.refills:
+        ctx.check(arg == '0', 'cursor:new-byte-zero', tgt.site(c), 'a new byte starts as zero', arg)
+        if under_flag:
+            ctx.check(at is not None and within(at, -1, 6), 'cursor:aligned-refill', tgt.site(c),
+                      'under the alignment flag a new byte is started only when the current one is partly or wholly used', fmt(at))
+        else:
+            ctx.check(at == (-1, -1), 'cursor:refill-only-when-full', tgt.site(c),
+                      'without the alignment flag a new byte is started exactly when the current one is full (cursor = -1)', 'cursor in ' + fmt(at))
+    for (n, st) in it.exits:
+        ok = within(st.get(CUR), -1, 7) and st.get('T') == (7, 7) and st.get('D') == (-1, -1)
+        ctx.check(ok, 'cursor:invariant-restored', tgt.site(n) if not isinstance(n, ast.FunctionDef) else tgt.site(),
+                  'every exit leaves cursor in [-1, 7], byte index = len(buffer) - 1, cursor + stored bits = 7',
+                  f'cursor {fmt(st.get(CUR))}, cursor+stored {fmt(st.get("T"))}, index-len {fmt(st.get("D"))}')
+    # who may write the cursor cells
+    n_writers = 0
+    for fn in ctx.repo.all_functions():
+        for node in ast.walk(fn.node):
+            tg = []
+            if isinstance(node, ast.Assign):
+                tg = node.targets
+            elif isinstance(node, (ast.AugAssign, ast.AnnAssign)):
+                tg = [node.target]
+            for t in tg:
+                base = t.value if isinstance(t, ast.Subscript) else t
+                if isinstance(base, ast.Attribute) and base.attr in ('_cur_bit_idx', '_cur_byte_idx'):
+                    n_writers += 1
+                    ctx.check(fn.qualname in (PB + '.__init__', PB + '.append_bits'), f'cursor:writer:{ctx.short(fn)}', fn.site(node),
+                              'the cursor is written only by the packer\'s constructor and append_bits', unparse(node)[:80])
+
+
 def c01_state(ctx):
     """Per-statement / per-lookup properties presuppose that nothing is remembered between statements beyond the reviewed state."""
     from rules.shared import state_discipline
@@ -605,7 +678,7 @@ def c01_macro_steps(ctx):
     from rules.c10 import c10_1
     c10_1(ctx)
 
-RULES = [c01_1, c01_2, c01_3, c01_4, c01_5, c01_6, c01_7, c01_8, c01_state, c01_macro_steps]
+RULES = [c01_1, c01_2, c01_3, c01_4, c01_5, c01_6, c01_7, c01_8, c01_9, c01_state, c01_macro_steps]
 
 _OP = 'assembler/model/operand_parser.py'
 _GI = 'assembler/bytecode/generator/instruction.py'
@@ -730,4 +803,41 @@ TWINS = [
             arguments = list(reversed(arguments))
 '''),
     V('c01-t-ceil-idiom', _AS, 'self._byte_size = math.ceil(total_bits/8)', 'self._byte_size = (total_bits + 7) // 8'),
+]
+MUTANTS += [
+    V('c01-cursor-refill-one-early', 'assembler/bytecode/packed_bits.py', '                if self._cur_bit_idx < 0:', '                if self._cur_bit_idx <= 0:', 'C01.9'),
+    V('c01-cursor-overwrite', 'assembler/bytecode/packed_bits.py', 'self._bytes[self._cur_byte_idx] |= (bit_value << self._cur_bit_idx)', 'self._bytes[self._cur_byte_idx] = (bit_value << self._cur_bit_idx)', 'C01.9'),
+    V('c01-cursor-unmasked-bit', 'assembler/bytecode/packed_bits.py', 'bit_value = (((value_bytes[byte_idx]) & mask) >> bit_idx)', 'bit_value = ((value_bytes[byte_idx]) >> bit_idx)', 'C01.9'),
+    V('c01-cursor-index-not-advanced', 'assembler/bytecode/packed_bits.py', """                    self._cur_bit_idx = 7
+                    self._bytes.append(0)
+                    self._cur_byte_idx += 1
+""", """                    self._cur_bit_idx = 7
+                    self._bytes.append(0)
+""", 'C01.9'),
+    V('c01-cursor-double-step', 'assembler/bytecode/packed_bits.py', """                self._cur_bit_idx -= 1
+""", """                self._cur_bit_idx -= 1 if bit_value else 2
+""", 'C01.9'),
+    V('c01-cursor-aligned-no-new-byte', 'assembler/bytecode/packed_bits.py', """            self._cur_bit_idx = 7
+            self._bytes.append(0)
+            self._cur_byte_idx += 1
+        first_byte_idex""", """            self._cur_bit_idx = 7
+        first_byte_idex""", 'C01.9'),
+]
+TWINS += [
+    V('c01-t-cursor-eq-minus-one', 'assembler/bytecode/packed_bits.py', '                if self._cur_bit_idx < 0:', '                if self._cur_bit_idx == -1:'),
+    V('c01-t-cursor-append-first', 'assembler/bytecode/packed_bits.py', """                    self._cur_bit_idx = 7
+                    self._bytes.append(0)
+                    self._cur_byte_idx += 1
+""", """                    self._bytes.append(0)
+                    self._cur_byte_idx += 1
+                    self._cur_bit_idx = 7
+"""),
+    V('c01-t-cursor-shift-and-one', 'assembler/bytecode/packed_bits.py', 'bit_value = (((value_bytes[byte_idx]) & mask) >> bit_idx)', 'bit_value = (value_bytes[byte_idx] >> bit_idx) & 1'),
+    V('c01-t-cursor-index-from-len', 'assembler/bytecode/packed_bits.py', """            self._cur_bit_idx = 7
+            self._bytes.append(0)
+            self._cur_byte_idx += 1
+        first_byte_idex""", """            self._cur_bit_idx = 7
+            self._bytes.append(0)
+            self._cur_byte_idx = len(self._bytes) - 1
+        first_byte_idex"""),
 ]
